@@ -250,4 +250,55 @@ example :
       (fun e => (e.eval optIntOrder (some 9) none, e.eval optIntOrder (some 5) (some 8)))
     = some (true, false) := by decide
 
+/-! ### A second instance: cross-type keys (numbers < strings < null), as the lake orders them
+    with nullsMax, and a filter in which comparisons across types or with null are never true. -/
+
+inductive XKey where
+  | num (n : Int)
+  | str (s : List UInt8)
+  | null
+  deriving DecidableEq, Repr
+
+def xcmp : XKey → XKey → Ordering
+  | .num a, .num b => compare a b
+  | .num _, _ => .lt
+  | .str _, .num _ => .gt
+  | .str a, .str b => compare a b
+  | .str _, .null => .lt
+  | .null, .null => .eq
+  | .null, _ => .gt
+
+private theorem isLE_iff (o : Ordering) : o.isLE = true ↔ o ≠ .gt := by
+  cases o <;> simp [Ordering.isLE]
+
+def xOrder : KeyOrder XKey where
+  cmp := xcmp
+  swap := by
+    intro a b
+    cases a <;> cases b <;> simp [xcmp, Ordering.swap] <;> exact Std.OrientedCmp.eq_swap
+  le_trans := by
+    intro a b c
+    cases a <;> cases b <;> cases c <;> simp [xcmp]
+    · intro h1 h2
+      exact (isLE_iff _).1 (Std.TransCmp.isLE_trans ((isLE_iff _).2 h1) ((isLE_iff _).2 h2))
+    · intro h1 h2
+      exact (isLE_iff _).1 (Std.TransCmp.isLE_trans ((isLE_iff _).2 h1) ((isLE_iff _).2 h2))
+
+def xHolds (op : CmpOp) (a b : XKey) : Bool :=
+  match a, b with
+  | .num x, .num y => op.sem (compare x y)
+  | .str x, .str y => op.sem (compare x y)
+  | _, _ => false
+
+theorem xCoherent : Coherent xOrder xHolds := by
+  intro op a b h
+  cases a <;> cases b <;> simp_all [xHolds, xOrder, xcmp]
+
+/-- `"b" <= key` over an object whose keys run from the number 7 to the string "a" is pruned;
+    over `[7, null]` it is not (strings may lie in between). -/
+example :
+    (build (.cmp .le false (XKey.str [98]))).map
+      (fun e => (e.eval xOrder (.num 7) (.str [97]), e.eval xOrder (.num 7) .null))
+    = some (true, false) := by decide
+
 end Zed.Props.C16
